@@ -29,6 +29,8 @@ def cases(ctx):
         yield {"kind": "file", "fcfg": fcfg, "aseed": rng.getrandbits(32)}
     for cfg in ipgen.configs(rng, ctx.pick(1, 4), fam=4, quick=ctx.quick):
         cfg["salter"] = "default"
+        cfg["B"] = rng.choice([None, 0, 8])
+        cfg["pp"] = rng.choice([None, None, ["10.0.0.0/8", "100.64.0.0/10"]])
         yield {"kind": "cfg", "cfg": cfg, "n": ctx.pick(9000, 40000), "aseed": rng.getrandbits(32), "long": True}
     # many salts against the same prefix list: an unpinned last bit is a 1/2 event per salt
     for i in range(ctx.per_shard(ctx.pick(1500, 40000))):
